@@ -16,7 +16,28 @@ for p in sorted(glob.glob(os.path.join(ROOT, "seeded", "*", "meta.json"))):
         head = last.strip().splitlines()[0] if last.strip() else ""
         m["check_result"] += " — re-run after strengthening (%s): %s" % (head.strip(), ("exit 1, concrete replay" if concrete else "exit 1, no-failing-input-found") if mm and mm.group(1) == "1" else "exit %s" % (mm.group(1) if mm else "?"))
     rows.append("| `seeded/%s` | %s | %s | %s | %s |" % (name, m["property"], m["change"].replace("|", "/"), m["needs_to_manifest"].replace("|", "/"), m["check_result"].replace("|", "/")))
-table = "\n".join(["| directory | property | change | needs to manifest | `./check <property> quick` on the changed tree |", "|---|---|---|---|---|"] + rows)
+import collections
+stat = collections.Counter()
+for p in sorted(glob.glob(os.path.join(ROOT, "seeded", "*", "meta.json"))):
+    r = json.load(open(p))["check_result"]
+    rl = os.path.join(os.path.dirname(p), "recheck.log")
+    rechecked = os.path.exists(rl) and "exit 1" in open(rl).read().strip().split("== recheck")[-1]
+    if rechecked and (r.startswith("missed") or "tie only" in r):
+        stat["missed (or tie-only) at first, caught after the check was strengthened (re-run recorded in recheck.log)"] += 1
+    elif r.startswith("caught") and "(T) tie only" not in r and "first run by the (T)" not in r:
+        stat["caught at the first run with a concrete replay"] += 1
+    elif "tie only" in r and "missed" not in r.split("tie only")[0]:
+        stat["caught at the first run by a (T) tie / model disagreement only (no-failing-input-found)"] += 1
+    elif r.startswith("missed at first") or "caught after" in r or "caught: first run by" in r:
+        stat["missed (or tie-only) at first, caught with a concrete replay after the check was strengthened"] += 1
+    elif r.startswith("missed by") and "caught by the" in r:
+        stat["missed by the named property's check, caught by a sibling property's check (strengthening of the named check requested/done)"] += 1
+    elif r.startswith("missed"):
+        stat["missed at the first run (strengthening requested; see recheck.log when present)"] += 1
+    else:
+        stat["other"] += 1
+summary = "Summary of %d seeded changes: " % sum(stat.values()) + "; ".join("%d %s" % (v, k) for k, v in stat.most_common()) + ".\n\n"
+table = summary + "\n".join(["| directory | property | change | needs to manifest | `./check <property> quick` on the changed tree |", "|---|---|---|---|---|"] + rows)
 begin, end = "<!-- SEEDED-BEGIN -->", "<!-- SEEDED-END -->"
 d = open(os.path.join(ROOT, "DESIGN.md")).read()
 block = begin + "\n" + table + "\n" + end
